@@ -1485,6 +1485,9 @@ class Glyph(object):
         if self.isComposite():
             for component in self.components:
                 glyphName, transform = component.getComponentInfo()
+                if offset:
+                    xx, xy, yx, yy, dx, dy = transform
+                    transform = (xx, xy, yx, yy, dx + offset, dy)
                 pen.addComponent(glyphName, transform)
             return
 
@@ -1584,6 +1587,9 @@ class Glyph(object):
         if self.isComposite():
             for component in self.components:
                 glyphName, transform = component.getComponentInfo()
+                if offset:
+                    xx, xy, yx, yy, dx, dy = transform
+                    transform = (xx, xy, yx, yy, dx + offset, dy)
                 pen.addComponent(glyphName, transform)
             return
 
